@@ -45,7 +45,11 @@ def run(job):
                     changes = FileStorage(os.path.join(workdir, 'changes.fs'))
                 rp.st = DemoStorage(base=base, changes=changes)
         st = rp.st
-        Sc = sched.S = sched.Sched(seed, **(kw or {}))
+        kw = dict(kw or {})
+        if 'plan' in kw:
+            Sc = sched.S = sched.Plan(kw['plan'], kw['order'])
+        else:
+            Sc = sched.S = sched.Sched(seed, **kw)
 
         def committer(i, n):
             def body():
@@ -67,6 +71,7 @@ def run(job):
         sched.S = None
         out['errors'] = {k: '%s: %s' % (type(v).__name__, str(v)[:200]) for k, v in Sc.errors.items()}
         out['switches'] = sum(1 for a, b in zip(Sc.choices, Sc.choices[1:]) if a != b)
+        out['yields'] = dict(getattr(Sc, 'yields', {}))
         if out['outcome'] == 'ok' and not out['errors']:
             try:
                 out['obs'] = packconc.observe(rp)
@@ -126,3 +131,61 @@ def judge(out, beh):
         v.append(({'kind': 'commit-sched', 'what': 'final-state', 'storage': out['kind']},
                   '%s: state after concurrent commits differs from the serial execution in finish order: %s' % (out['kind'], '; '.join(mm[:3]))))
     return v
+
+
+def explore(ctx, kinds, nrandom, tag):
+    """seeded random schedules plus systematic single-preemption sweeps (every yield point of every committer, the
+    others running to completion) on each storage kind; judged against the TLC-evaluated serial execution in finish
+    order.  Returns the coverage record; violations are reported through ctx."""
+    import json
+    import random
+    from .. import par
+    rng = random.Random(ctx.seed * 19 + 4)
+    jobs = []
+    for i in range(nrandom):
+        kind = kinds[i % len(kinds)]
+        jobs.append((kind, [rng.randint(1, 3) for _ in range(rng.choice((2, 2, 3)))], ctx.seed * 7000 + i,
+                     os.path.join(ctx.scratch, '%s-%d' % (tag, i)), {'stick': (0.2, 0.5, 0.8)[(i // len(kinds)) % 3]}))
+    nplan = 0
+    for kind in kinds:
+        for ncommit in ([2, 1], [1, 2, 1]):
+            names = ['committer%d' % i for i in range(len(ncommit))]
+            cal = run((kind, ncommit, 0, os.path.join(ctx.scratch, '%s-cal' % tag), {'plan': [], 'order': names}))
+            for victim in names:
+                others = [n for n in names if n != victim]
+                ks = list(range(1, cal['yields'].get(victim, 0) + 2))
+                cap = 12 if ctx.quick else 200
+                if len(ks) > cap:
+                    ks = sorted({1 + (i * (len(ks) - 1)) // (cap - 1) for i in range(cap)})
+                for k in ks:
+                    jobs.append((kind, ncommit, 0, os.path.join(ctx.scratch, '%s-p%d' % (tag, len(jobs))),
+                                 {'plan': [(victim, k)], 'order': others + [victim]}))
+                    nplan += 1
+    sres = par.pmap(run, jobs, chunksize=4)
+    good = []
+    for r in sres:
+        if r['outcome'] != 'ok':
+            ctx.violation({'kind': 'commit-sched', 'what': r['outcome'], 'storage': r['kind']},
+                          '%s: scheduler outcome %s (seed %d)' % (r['kind'], r['outcome'], r['seed']), replay=r)
+        for th, err in r['errors'].items():
+            ctx.violation({'kind': 'commit-sched', 'what': 'thread-error', 'storage': r['kind'], 'error': err.split(':')[0]},
+                          '%s: thread %s raised %s (seed %d)' % (r['kind'], th, err, r['seed']), replay=r)
+        if r['outcome'] == 'ok' and not r['errors']:
+            good.append(r)
+    nuniq = 0
+    for model, sel in (('file', [r for r in good if r['kind'] == 'file']), ('mapping', [r for r in good if r['kind'] != 'file'])):
+        if not sel:
+            continue
+        c = sd.consts(model, NOid=6, MaxTxn=20, MaxRecs=5, MaxClock=8, AtomVals=('v1', 'v2'), RefSets='NoRefs', Cls='MCClsPlain')
+        keyed = [json.dumps(script_for(r), sort_keys=True) for r in sel]
+        uniq = sorted(set(keyed))
+        nuniq += len(uniq)
+        bykey = dict(zip(uniq, sc.evaluate(ctx, '%s-%s' % (tag, model), [json.loads(k) for k in uniq], c)))
+        for r, k in zip(sel, keyed):
+            for sig, desc in judge(r, bykey[k]):
+                ctx.violation(sig, '%s (seed %d)' % (desc, r['seed']), replay={'kind': r['kind'], 'seed': r['seed'], 'order': r['finish_order']})
+    cov = {'run': len(sres), 'judged': len(good), 'systematic_preemption_runs': nplan, 'distinct_serial_equivalents': nuniq,
+           'with_3_switches': sum(1 for r in good if r.get('switches', 0) >= 3)}
+    if not ctx.violations and cov['with_3_switches'] < nrandom // 3:
+        raise RuntimeError('vacuous run: committer schedules hardly interleave (%r)' % cov)
+    return cov
